@@ -34,6 +34,7 @@ type c10CtlOp struct {
 }
 
 type c10CtlCase struct {
+	Bitmaps2     map[string]string `json:"bitmaps2"` // fqdn -> bitmap hex under the rule set loaded by a reload
 	Bitmaps      map[string]string `json:"bitmaps"` // fqdn -> bitmap hex
 	MaxCacheSize int               `json:"max_cache_size"`
 	Ops          []c10CtlOp        `json:"ops"`
@@ -81,8 +82,19 @@ func c10CtlRun(cs c10CtlCase) (res c10CtlResult) {
 	defer func() { VerifDomainRoutingObserver = nil }()
 	cp := &ControlPlane{core: core, log: lg, ctx: context.Background()}
 	opt := cp.dnsControllerOption()
+	curBitmaps := cs.Bitmaps
+	bitmapOf := func(fqdn string) []uint32 {
+		hex, ok := curBitmaps[fqdn]
+		if !ok {
+			hex = "0"
+		}
+		return c10BitmapWords(hex)
+	}
+	newCache := func(fqdn string, answers, ns, extra []dnsmessage.RR, deadline, originalDeadline time.Time) (*DnsCache, error) {
+		return &DnsCache{DomainBitmap: bitmapOf(fqdn), Answer: answers, NS: ns, Extra: extra, Deadline: deadline, OriginalDeadline: originalDeadline}, nil
+	}
 	opt.NewCache = func(fqdn string, answers, ns, extra []dnsmessage.RR, deadline, originalDeadline time.Time) (*DnsCache, error) {
-		hex, ok := cs.Bitmaps[fqdn]
+		hex, ok := curBitmaps[fqdn]
 		if !ok {
 			hex = "0"
 		}
@@ -102,7 +114,7 @@ func c10CtlRun(cs c10CtlCase) (res c10CtlResult) {
 	if err != nil {
 		panic(err)
 	}
-	defer ctrl.Close()
+	defer func() { ctrl.Close() }()
 	for _, op := range cs.Ops {
 		var opErr error
 		fqdn := dnsmessage.CanonicalName(op.Host)
@@ -118,7 +130,9 @@ func c10CtlRun(cs c10CtlCase) (res c10CtlResult) {
 				ip := netip.MustParseAddr(s)
 				ip6 := ip.As16()
 				res.Keys[s] = c10KeyHex(common.Ipv6ByteSliceToUint32Array(ip6[:]))
-				answers = append(answers, c10RR(ip))
+				rr := c10RR(ip)
+				rr.Header().Name = fqdn
+				answers = append(answers, rr)
 			}
 			opErr = ctrl.UpdateDnsCacheTtlWithKey(key, op.Host, op.Qtype, answers, nil, nil, op.TTL)
 		case "remove":
@@ -127,6 +141,45 @@ func c10CtlRun(cs c10CtlCase) (res c10CtlResult) {
 			ctrl.RemoveDnsRespCacheFamily(base)
 		case "janitor":
 			ctrl.evictExpiredDnsCache(time.Now().Add(time.Duration(op.AtSec) * time.Second))
+		case "reload":
+			// reload hand-over as ControlPlane does it: clone the cache, a new generation with a fresh
+			// core/tracker and a cleared kernel map, new rule set (bitmaps2), replay the cloned entries.
+			entries := ctrl.CloneCacheForReload()
+			ctrl.Close()
+			if cs.Bitmaps2 != nil {
+				curBitmaps = cs.Bitmaps2
+			}
+			core = &controlPlaneCore{}
+			core.bpf.Store(&bpfObjects{})
+			for k := range shadow {
+				delete(shadow, k)
+			}
+			cp = &ControlPlane{core: core, log: lg, ctx: context.Background()}
+			opt2 := cp.dnsControllerOption()
+			opt2.NewCache = newCache
+			opt2.MaxCacheSize = cs.MaxCacheSize
+			ctrl2, err2 := NewDnsController(routing, opt2)
+			if err2 != nil {
+				panic(err2)
+			}
+			ctrl = ctrl2
+			ctrl.RestoreReloadCache(entries, bitmapOf, time.Now())
+			// quiescence: every restored entry with addresses has been synced by the async worker
+			deadline := time.Now().Add(3 * time.Second)
+			for time.Now().Before(deadline) {
+				pending := 0
+				ctrl.dnsCache.Range(func(_, v any) bool {
+					c := v.(*DnsCache)
+					if h := c.ComputeBpfDataHash(); h != 0 && c.lastBpfDataHash.Load() != h {
+						pending++
+					}
+					return true
+				})
+				if pending == 0 {
+					break
+				}
+				time.Sleep(time.Millisecond)
+			}
 		default:
 			panic("bad op " + op.Kind)
 		}
